@@ -2264,7 +2264,8 @@ func (self *StatisticExpr) SortBucketResult(results *[]*BucketResult) error {
 			// If there is a stats groupby block before statistic groupby block. E.g. ... | stats count BY http_status, gender | rare 1 http_status,
 			// In this case, each http_status will be divided by two genders, so we should merge them into one row here
 			//Fields combination does not exist
-			if !combinationExist {
+			// the first bucket always starts a combination, also when its values are empty strings
+			if !combinationExist || len(newResults) == 0 {
 				combinationCount++
 				if combinationCount > limit {
 					*results = newResults
